@@ -1,7 +1,12 @@
-(* C15: syntax and semantics of the legacy-IR expression fragment the optimiser rewrites.
-   No proofs here.  Evaluation order is that of compile_ir._step_r: arguments are evaluated
-   last-to-first; a complex leaf [Cx k] models any effectful / state-dependent node: it appends k
-   to the effect trace and its value may depend on the whole trace so far. *)
+(* C15: syntax and semantics of legacy IR as the optimiser sees it.  No proofs here.
+   An IR node is a literal, a non-complex leaf (with-variable, calldatasize, callvalue) or an
+   operator node with arguments (exactly IRnode's value/args).  The semantics is denotational and
+   compositional: the node kinds the optimiser rewrites have a fixed meaning (word arithmetic,
+   seq, if, assert, iszero, ...; arguments evaluated last-to-first as compile_ir does); every other
+   node kind -- memory/storage/log/call opcodes, with, set, repeat, goto, return, revert ... -- is
+   interpreted by an arbitrary functional [sem_K] of the denotations of its children, so theorems hold
+   for every compositional semantics of the rest of the language, every state space and every
+   notion of halting. *)
 From Coq Require Import ZArith Bool List String.
 From Verif Require Import Base.Word256 Base.Hex.
 Import ListNotations.
@@ -14,13 +19,9 @@ Inductive bop :=
 Inductive uop := U_iszero | U_not.
 
 Inductive expr :=
-| Lit (v : Z)                 (* int literal, raw python value in [MIN_INT256, MAX_UINT256] *)
-| Var (x : string)            (* non-complex leaf: with-variable, calldatasize, callvalue *)
-| Cx (k : Z)                  (* opaque complex (effectful / state-reading) node *)
-| Un (o : uop) (a : expr)
-| Bin (o : bop) (a b : expr)
-| Seq1 (a : expr)             (* (seq a) *)
-| If3 (c t f : expr).         (* (if c t f) with valued branches *)
+| Lit (v : Z)                          (* int literal, raw python value in [MIN_INT256, MAX_UINT256] *)
+| Var (x : string)                     (* non-complex leaf *)
+| Node (op : string) (args : list expr).
 
 Definition bop_eqb (x y : bop) : bool :=
   match x, y with
@@ -32,6 +33,27 @@ Definition bop_eqb (x y : bop) : bool :=
   end.
 Fixpoint memb (o : bop) (l : list bop) : bool :=
   match l with [] => false | x :: t => bop_eqb o x || memb o t end.
+
+Definition bop_name (o : bop) : string :=
+  match o with
+  | B_add => "add" | B_sub => "sub" | B_mul => "mul" | B_div => "div" | B_sdiv => "sdiv"
+  | B_mod => "mod" | B_smod => "smod" | B_exp => "exp" | B_eq => "eq" | B_ne => "ne"
+  | B_lt => "lt" | B_le => "le" | B_gt => "gt" | B_ge => "ge" | B_slt => "slt" | B_sle => "sle"
+  | B_sgt => "sgt" | B_sge => "sge" | B_or => "or" | B_and => "and" | B_xor => "xor"
+  | B_shl => "shl" | B_shr => "shr" | B_sar => "sar"
+  end.
+Definition uop_name (o : uop) : string := match o with U_iszero => "iszero" | U_not => "not" end.
+Definition all_bops : list bop :=
+  [B_add; B_sub; B_mul; B_div; B_sdiv; B_mod; B_smod; B_exp; B_eq; B_ne; B_lt; B_le; B_gt; B_ge;
+   B_slt; B_sle; B_sgt; B_sge; B_or; B_and; B_xor; B_shl; B_shr; B_sar].
+Definition bop_of_name (s : string) : option bop :=
+  find (fun o => String.eqb (bop_name o) s) all_bops.
+
+(* smart constructors *)
+Definition Bin (o : bop) (a b : expr) : expr := Node (bop_name o) [a; b].
+Definition Un (o : uop) (a : expr) : expr := Node (uop_name o) [a].
+Definition Seq1 (a : expr) : expr := Node "seq" [a].
+Definition Cx (k : Z) : expr := Node "sload" [Lit k].     (* some effectful node *)
 
 (* pseudo-ops as lowered by compile_ir: ne = iszero eq, le = iszero gt, ... *)
 Definition bop_sem (o : bop) (a b : Z) : Z :=
@@ -47,25 +69,86 @@ Definition bop_sem (o : bop) (a b : Z) : Z :=
   end.
 Definition uop_sem (o : uop) (a : Z) : Z :=
   match o with U_iszero => w_iszero a | U_not => w_not a end.
+(* compile_ir: (ceil32 x) = (and (add x 31) (not 31)) *)
+Definition ceil32_sem (a : Z) : Z := w_and (w_add a 31) (w_not 31).
 
-Definition env := string -> Z.
-Definition oracle := Z -> list Z -> Z.
-
-Fixpoint eval (en : env) (orc : oracle) (e : expr) (tr : list Z) : Z * list Z :=
-  match e with
-  | Lit v => (wrap v, tr)
-  | Var x => (wrap (en x), tr)
-  | Cx k => (wrap (orc k tr), k :: tr)
-  | Un o a => let '(va, t1) := eval en orc a tr in (uop_sem o va, t1)
-  | Bin o a b =>
-      let '(vb, t1) := eval en orc b tr in
-      let '(va, t2) := eval en orc a t1 in
-      (bop_sem o va vb, t2)
-  | Seq1 a => eval en orc a tr
-  | If3 c t f =>
-      let '(vc, t1) := eval en orc c tr in
-      if vc =? 0 then eval en orc f t1 else eval en orc t t1
+Inductive kind :=
+| KBin (o : bop) | KUn (o : uop) | KCeil32 | KSeq | KIf | KAssert | KAssertUnreachable | KPass | KOther.
+Definition kind_of (s : string) : kind :=
+  match bop_of_name s with
+  | Some o => KBin o
+  | None =>
+    if String.eqb s "iszero" then KUn U_iszero else if String.eqb s "not" then KUn U_not
+    else if String.eqb s "ceil32" then KCeil32 else if String.eqb s "seq" then KSeq
+    else if String.eqb s "if" then KIf else if String.eqb s "assert" then KAssert
+    else if String.eqb s "assert_unreachable" then KAssertUnreachable
+    else if String.eqb s "pass" then KPass else KOther
   end.
+
+(* ---- semantics ---- *)
+Inductive outcome (St Hl : Type) :=
+| Norm (v : Z) (s : St)       (* value (0 for statements) and next state *)
+| Halt (h : Hl).              (* return / revert / stop / invalid / selfdestruct ...: final observation *)
+Arguments Norm {St Hl} _ _.
+Arguments Halt {St Hl} _.
+
+Record Sem := {
+  St : Type;                  (* machine state: memory, storage, logs, variables, ... *)
+  Hl : Type;                  (* what is observable of a halted execution *)
+  getvar : St -> string -> Z;                                   (* read a non-complex leaf *)
+  sem_K : string -> list (St -> outcome St Hl) -> St -> outcome St Hl;  (* every other node kind *)
+  sem_revert : St -> Hl;      (* failed assert *)
+  sem_invalid : St -> Hl;     (* failed assert_unreachable *)
+}.
+
+Section Eval.
+Variable M : Sem. (*section*)
+Definition den := St M -> outcome (St M) (Hl M).
+Definition ret (v : Z) : den := fun s => Norm v s.
+Definition bindd (d : den) (k : Z -> den) : den :=
+  fun s => match d s with Norm v s' => k v s' | Halt h => Halt h end.
+(* (seq d1 .. dn): in order; the value is the value of the last; (seq) = 0 *)
+Fixpoint seq_den (ds : list den) : den :=
+  match ds with
+  | [] => ret 0
+  | [d] => d
+  | d :: t => bindd d (fun _ => seq_den t)
+  end.
+
+Fixpoint eval (e : expr) : den :=
+  match e with
+  | Lit v => ret (wrap v)
+  | Var x => fun s => Norm (wrap (getvar M s x)) s
+  | Node op args =>
+      match kind_of op, args with
+      | KBin o, [a; b] =>
+          bindd (eval b) (fun vb => bindd (eval a) (fun va => ret (bop_sem o va vb)))
+      | KUn o, [a] => bindd (eval a) (fun va => ret (uop_sem o va))
+      | KCeil32, [a] => bindd (eval a) (fun va => ret (ceil32_sem va))
+      | KSeq, _ => seq_den (map eval args)
+      | KIf, [c; t] => bindd (eval c) (fun vc => if vc =? 0 then ret 0 else eval t)
+      | KIf, [c; t; f] => bindd (eval c) (fun vc => if vc =? 0 then eval f else eval t)
+      | KAssert, [c] => bindd (eval c) (fun vc => if vc =? 0 then (fun s => Halt (sem_revert M s)) else ret 0)
+      | KAssertUnreachable, [c] =>
+          bindd (eval c) (fun vc => if vc =? 0 then (fun s => Halt (sem_invalid M s)) else ret 0)
+      | KPass, [] => ret 0
+      (* wrong arity for iszero / if / assert: rejected by the IRnode constructor; meaning immaterial *)
+      | KUn U_iszero, _ | KIf, _ | KAssert, _ => sem_K M op []
+      | _, _ => sem_K M op (map eval args)
+      end
+  end.
+End Eval.
+
+(* pointwise equality of denotations *)
+Definition deq {M : Sem} (d d' : den M) : Prop := forall s, d s = d' s.
+
+(* what is assumed of the interpretation of the other node kinds *)
+Record SemOk (M : Sem) : Prop := {
+  (* values are EVM words *)
+  K_range : forall op ds s v s', sem_K M op ds s = Norm v s' -> 0 <= v < W;
+  (* compositional: the meaning depends only on the meaning of the children *)
+  K_ext : forall op ds ds', Forall2 deq ds ds' -> forall s, sem_K M op ds s = sem_K M op ds' s;
+}.
 
 (* all literals inside are IRnode-legal *)
 Definition lit_ok (v : Z) : Prop := MINS <= v <= MAXU.
@@ -73,34 +156,21 @@ Definition lit_okb (v : Z) : bool := (MINS <=? v) && (v <=? MAXU).
 Fixpoint wf (e : expr) : Prop :=
   match e with
   | Lit v => lit_ok v
-  | Var _ | Cx _ => True
-  | Un _ a | Seq1 a => wf a
-  | Bin _ a b => wf a /\ wf b
-  | If3 c t f => wf c /\ wf t /\ wf f
+  | Var _ => True
+  | Node _ args => (fix wfl (l : list expr) : Prop := match l with [] => True | x :: t => wf x /\ wfl t end) args
   end.
+Definition wfl (l : list expr) : Prop := Forall wf l.
 
-(* IRnode.is_complex_ir: every opcode/macro node except calldatasize/callvalue *)
+(* IRnode.is_complex_ir: every opcode/macro node except calldatasize/callvalue/~empty (those are [Var]) *)
 Definition is_complex (e : expr) : bool :=
-  match e with Lit _ | Var _ => false | _ => true end.
+  match e with Lit _ | Var _ => false | Node _ _ => true end.
 Definition is_int (e : expr) : bool := match e with Lit _ => true | _ => false end.
 
 (* printing (harness only) *)
-Definition bop_name (o : bop) : string :=
-  match o with
-  | B_add => "add" | B_sub => "sub" | B_mul => "mul" | B_div => "div" | B_sdiv => "sdiv"
-  | B_mod => "mod" | B_smod => "smod" | B_exp => "exp" | B_eq => "eq" | B_ne => "ne"
-  | B_lt => "lt" | B_le => "le" | B_gt => "gt" | B_ge => "ge" | B_slt => "slt" | B_sle => "sle"
-  | B_sgt => "sgt" | B_sge => "sge" | B_or => "or" | B_and => "and" | B_xor => "xor"
-  | B_shl => "shl" | B_shr => "shr" | B_sar => "sar"
-  end.
-Definition uop_name (o : uop) : string := match o with U_iszero => "iszero" | U_not => "not" end.
 Fixpoint show (e : expr) : string :=
   match e with
   | Lit v => hexZ v
   | Var x => x
-  | Cx k => "c" ++ hexZ k
-  | Un o a => "(" ++ uop_name o ++ " " ++ show a ++ ")"
-  | Bin o a b => "(" ++ bop_name o ++ " " ++ show a ++ " " ++ show b ++ ")"
-  | Seq1 a => "(seq " ++ show a ++ ")"
-  | If3 c t f => "(if " ++ show c ++ " " ++ show t ++ " " ++ show f ++ ")"
+  | Node op [] => ("(" ++ op ++ ")")%string
+  | Node op args => ("(" ++ op ++ String.concat "" (map (fun a => " " ++ show a) args) ++ ")")%string
   end.
